@@ -176,8 +176,8 @@ def table(tier):
         for origin in ("bogus", "COM", "com", "image_center", (5, 5)):
             for crop in ("maintain_size", "valid_region", "bogus"):
                 reqs.append(base(method=m, origin=origin, crop=crop))
-        for uq in ((False,) * 4, (True, False, False, False)):
-            for ax_sym in ("average", "fourier", "bogus", "Average"):
+        for uq in ((False,) * 4, (True, False, False, False), (True,) * 4):
+            for ax_sym in ("average", "fourier", "bogus", "Average", "mean", ""):
                 reqs.append(base(method=m, uq=uq, sym=ax_sym))
     for m in ("daun", "rbasex"):
         # (unknown names also with strength 0 — "no regularisation" of an unknown kind is still an unknown request — and wrong case)
